@@ -72,6 +72,33 @@ func TestVerifC01Codec(t *testing.T) {
 			}
 		}
 	}
+	// header COUNTS around the limits of the 16-bit count field (round trip on the implementation only: the encodings are
+	// several hundred KB): every header that was stored comes back
+	for _, n := range []int{255, 256, 32767, 32768, 40000, 65535} {
+		hs := make(map[string][]byte, n)
+		for i := 0; i < n; i++ {
+			hs[fmt.Sprintf("h%d", i)] = []byte{byte(i)}
+		}
+		m := &Message{MagicByte: 1, Key: []byte("k"), Value: []byte("v"), Headers: hs}
+		b, err := encode(m)
+		line := fmt.Sprintf("codec roundtrip headers=%d", n)
+		res.Count(line, true)
+		res.Dist("codec:many-headers")
+		if err != nil {
+			res.Fail(vFailure{Kind: "spec", Case: []string{line}, Detail: "a message with " + fmt.Sprint(n) + " headers (the count field holds 65535) is refused: " + err.Error(), Tag: "codec-roundtrip-headers"})
+			continue
+		}
+		got := SerializedMessage(b).Headers()
+		same := len(got) == n
+		for k, v := range hs {
+			if same && !bytes.Equal(got[k], v) {
+				same = false
+			}
+		}
+		if !same {
+			res.Fail(vFailure{Kind: "spec", Case: []string{line}, Detail: fmt.Sprintf("stored %d headers, read back %d", n, len(got)), Tag: "codec-roundtrip-headers"})
+		}
+	}
 	ans := model.Ask(encLines)
 	for i := range encLines {
 		res.Count(encLines[i], true)
